@@ -150,6 +150,10 @@ def run_case(case, ctx):
 				open(pth, 'wb').write(blob)
 			if os.path.exists(out):
 				os.unlink(out)
+		if case.get('stale_output'):
+			# the output path already holds a larger, older matrix: nothing of it may survive
+			with open(out, 'w', encoding='utf-8') as f:
+				f.write(',' + ','.join(f'old{i}' for i in range(40)) + '\n' + ('oldrow,' + ','.join(['0.1234'] * 40) + '\n') * 40)
 		res = run_cli(rel(args), cwd=cwd)
 		desc = f'`gambit {" ".join(os.path.relpath(a, d) if a.startswith(d) else a for a in args)}` (effective spec {eff})'
 		if res.exit_code != 0:
@@ -195,6 +199,8 @@ def run_case(case, ctx):
 			classes.append('relative_paths')
 		if case.get('prerun') and qmode != 'qs':
 			classes.append('rerun_after_content_change')
+		if case.get('stale_output'):
+			classes.append('output_path_preexists')
 		if any(any(ch in l for ch in ',"\n') for l in qlabels + rlabels):
 			classes.append('label_needs_quoting')
 		if any(ord(ch) > 127 for l in qlabels + rlabels for ch in l):
@@ -232,6 +238,7 @@ def gen_case(draw, tier):
 		'relative': draw(st.sampled_from([False, True, False])),
 		'list_style': draw(st.integers(0, 4)),
 		'prerun': draw(st.sampled_from([False, False, False, True])),
+		'stale_output': draw(st.sampled_from([False, False, True])),
 	}
 	if rmode == 'use_db':
 		case['world'] = draw(Wd.world(max_refs=4, min_refs=1, max_queries=1, nasty_names=False))
